@@ -4,6 +4,7 @@
 -/
 import TinyHttpModel.RespSpec
 import TinyHttpModel.Lemmas.Choose
+import TinyHttpModel.Lemmas.BestOf
 
 namespace TH.Props.C05
 open TH
@@ -58,6 +59,43 @@ theorem never_chunked_for_old_or_nobody (status : Nat) (reqHeaders : List Header
       · simp [Extracted.teExcludedStatus, h]
       · simp [Extracted.teExcludedStatus, h]
     rw [if_pos hx]
+
+/-- The second and third sentence without the recursive helpers of `Spec.choice`: for a request
+    newer than HTTP/1.0 and a status that is neither 1xx nor 204, either no TE element is
+    admissible (q > 0 and named `chunked` / `identity`, any case) and the length rule decides, or
+    the coding used is that of an admissible element `(c, q)` such that every admissible element
+    before it has a strictly smaller q and none after it has a greater one — the earliest of the
+    most preferred. -/
+theorem te_preference (status : Nat) (reqHeaders : List Header) (ver : Version)
+    (len : Option Nat) (thr : Nat) (te : List (Bytes × Q))
+    (hte : Spec.teList reqHeaders = some te)
+    (hv : ver.le ⟨1, 0⟩ = false) (hst : 200 ≤ status) (h204 : status ≠ 204) :
+    (Spec.admissible te = [] ∧
+      chooseTransferEncoding status reqHeaders ver len thr =
+        some (match len with
+              | none => .chunked
+              | some l => if thr ≤ l then .chunked else .identity)) ∨
+    (∃ pre c q post, Spec.admissible te = pre ++ (c, q) :: post ∧
+      (∀ x ∈ pre, q.gt x.2 = true) ∧ (∀ x ∈ post, x.2.gt q = false) ∧
+      chooseTransferEncoding status reqHeaders ver len thr = some c) := by
+  rw [choose_eq_spec status reqHeaders ver len thr te (by omega) hte]
+  unfold Spec.choice
+  rw [if_neg (by rw [hv]; simp; omega)]
+  cases hb : Spec.bestOf (Spec.admissible te) with
+  | none =>
+    left
+    exact ⟨bestOf_eq_none.1 hb, rfl⟩
+  | some y =>
+    right
+    obtain ⟨pre, post, hl, hpre, hpost⟩ := bestOf_split hb
+    exact ⟨pre, y.1, y.2, post, hl, hpre, hpost, rfl⟩
+
+/-- which TE elements count: those with q > 0 whose name is `chunked` or `identity` (any case),
+    in the order of the header. -/
+theorem admissible_elements (te : List (Bytes × Q)) :
+    Spec.admissible te =
+      te.filterMap (fun x => if x.2.pos then (codingOfName x.1).map (fun c => (c, x.2)) else none) :=
+  admissible_eq_filterMap te
 
 /-- Framing headers of the printed header list: identity ⇒ exactly one Content-Length carrying
     the decimal body length and no Transfer-Encoding; chunked ⇒ `Transfer-Encoding: chunked`
